@@ -51,6 +51,7 @@ def run(rep: Report) -> None:
              "subclasses of LarkError (armed in the parser zone); int() of an unbounded digit token must be converted to ParseError", floor=6)
     rep.rule("R17.2i", "inventory: builtin raises in algebra code reachable from the callbacks", armed=False)
     rep.rule("R17.3", "no path from the parse entry points writes a name or symbol registry (or renames an existing object)", floor=1)
+    rep.rule("R17.6", "a magnitude callback that is a bare builtin is fed by Lark's standard number terminal (the set of texts the builtin accepts)", floor=2)
     rep.rule("R17.4", "the magnitude callbacks produce the builtin int / float of the token text", floor=2)
     rep.rule("R17.5", "determinism: no memoised function on the parse path is keyed by a number (5 == 5.0 share a cache slot) or "
              "reads the name/symbol registries", floor=1)
@@ -180,6 +181,27 @@ def run(rep: Report) -> None:
                      "digits): Quantity.parse('1' * 5000 + ' m') raises ValueError instead of ParseError",
                      f"{ci.path}:{getattr(ci.class_attrs.get(name), 'lineno', ci.node.lineno)}")
     rep.analysed["int_sites"] = n_int
+    # R17.6: an unguarded builtin callback is total only on the standard number terminals
+    from ..grammar import build_from_text
+    ref = normalise(*build_from_text("start: SIGNED_INT SIGNED_FLOAT\n%import common.SIGNED_INT\n%import common.SIGNED_FLOAT\n", ["start"]))
+    for r in tables.rules:
+        alias = r[2]
+        if alias not in ("int", "float"):
+            continue
+        terms = [x[0] for x in r[1] if x[1] == "Terminal"]
+        rhs = ci.aliases.get(alias)
+        bare = isinstance(rhs, ast.Call) and rhs.args and isinstance(rhs.args[0], ast.Name) and rhs.args[0].id == alias
+        for t in terms:
+            mine = tables.terminals.get(t)
+            std = ref.terminals.get("SIGNED_FLOAT" if alias == "float" else "SIGNED_INT")
+            same = mine is not None and std is not None and mine[:3] == std[:3]
+            if bare:
+                rep.check("R17.6", f"callback:{alias}<-{t}", same,
+                          f"QuantityTransformer.{alias} is the bare builtin {alias}() and the terminal {t} feeding it is not Lark's common."
+                          f"{'SIGNED_FLOAT' if alias == 'float' else 'SIGNED_INT'} (pattern {mine[1][:60] if mine else None!r}): the lexer accepts "
+                          f"texts {alias}() rejects, and its ValueError escapes parse()", f"{ci.path}:{ci.node.lineno}")
+            else:
+                rep.ok("R17.6", f"callback:{alias}<-{t}", note="callback is a function of the package (its conversions are decided by R17.2)" if not same else "standard terminal")
 
     # R17.3
     n3 = 0
